@@ -160,8 +160,10 @@ class SSHConfig:
             # Special-case for noop ProxyCommands
             elif key == "proxycommand" and value.lower() == "none":
                 # Store 'none' as None - not as a string implying that the
-                # proxycommand is the literal shell command "none"!
-                context["config"][key] = None
+                # proxycommand is the literal shell command "none"! (As with
+                # any other keyword, only the first value in a block counts.)
+                if key not in context["config"]:
+                    context["config"][key] = None
             # All other keywords get stored, directly or via append
             else:
                 if value.startswith('"') and value.endswith('"'):
